@@ -158,7 +158,7 @@ type c07ExprSite struct {
 const (
 	c07TagsWF   = "nomatrix norunner nohashfiles noalways template"
 	c07TagsJob  = "norunner nohashfiles noalways template"
-	c07TagsStep = "noalways template"
+	c07TagsStep = "noalways template hashfiles"
 )
 
 func c07ExprSites() []c07ExprSite {
@@ -244,9 +244,9 @@ func c07ExprSites() []c07ExprSite {
 		}},
 		{name: "job.if", class: "if-placeholder", modes: []string{"whole"}, tags: tg("nomatrix norunner nohashfiles"), place: func(w *c07WF, t *c07Node) { w.job.set("if", t) }},
 		{name: "job.if-bare", class: "bare-if", modes: []string{"bare"}, tags: tg("nomatrix norunner nohashfiles"), place: func(w *c07WF, t *c07Node) { w.job.set("if", t) }},
-		{name: "step.if", class: "if-placeholder", modes: []string{"whole"}, tags: nil, place: func(w *c07WF, t *c07Node) { w.runStep.set("if", t) }},
-		{name: "step.if-bare", class: "bare-if", modes: []string{"bare"}, tags: nil, place: func(w *c07WF, t *c07Node) { w.runStep.set("if", t) }},
-		{name: "step.if-bare-uses", class: "bare-if", modes: []string{"bare"}, tags: nil, place: func(w *c07WF, t *c07Node) { w.usesStep.set("if", t) }},
+		{name: "step.if", class: "if-placeholder", modes: []string{"whole"}, tags: tg("hashfiles"), place: func(w *c07WF, t *c07Node) { w.runStep.set("if", t) }},
+		{name: "step.if-bare", class: "bare-if", modes: []string{"bare"}, tags: tg("hashfiles"), place: func(w *c07WF, t *c07Node) { w.runStep.set("if", t) }},
+		{name: "step.if-bare-uses", class: "bare-if", modes: []string{"bare"}, tags: tg("hashfiles"), place: func(w *c07WF, t *c07Node) { w.usesStep.set("if", t) }},
 		{name: "step.name", class: "string-value", modes: []string{"emb", "whole"}, tags: tg(c07TagsStep), place: func(w *c07WF, t *c07Node) { w.runStep.set("name", t) }},
 		{name: "step.run", class: "string-value", modes: []string{"emb", "whole"}, tags: tg(c07TagsStep + " script"), place: func(w *c07WF, t *c07Node) { w.runStep.set("run", t) }},
 		{name: "step.working-directory", class: "string-value", modes: []string{"emb", "whole"}, tags: tg(c07TagsStep), place: func(w *c07WF, t *c07Node) { w.runStep.set("working-directory", t) }},
@@ -272,8 +272,8 @@ func c07ExprSites() []c07ExprSite {
 			s.sub("with").set("script", t)
 			w.steps.items = append(w.steps.items, s)
 		}},
-		{name: "step.timeout-minutes", class: "typed-value", modes: []string{"whole"}, tags: tg("noalways"), place: func(w *c07WF, t *c07Node) { w.runStep.set("timeout-minutes", t) }},
-		{name: "step.continue-on-error", class: "typed-value", modes: []string{"whole"}, tags: tg("noalways"), place: func(w *c07WF, t *c07Node) { w.usesStep.set("continue-on-error", t) }},
+		{name: "step.timeout-minutes", class: "typed-value", modes: []string{"whole"}, tags: tg("noalways hashfiles"), place: func(w *c07WF, t *c07Node) { w.runStep.set("timeout-minutes", t) }},
+		{name: "step.continue-on-error", class: "typed-value", modes: []string{"whole"}, tags: tg("noalways hashfiles"), place: func(w *c07WF, t *c07Node) { w.usesStep.set("continue-on-error", t) }},
 		{name: "call.with", class: "string-value", modes: []string{"emb", "whole"}, tags: tg(c07TagsJob), place: func(w *c07WF, t *c07Node) { w.callJob().sub("with").set("arg", t) }},
 		{name: "call.secrets", class: "string-value", modes: []string{"emb", "whole"}, tags: tg(c07TagsJob), place: func(w *c07WF, t *c07Node) { w.callJob().sub("secrets").set("token", t) }},
 		{name: "dispatch.input.default", class: "string-value", modes: []string{"emb", "whole"}, tags: tg("template nocontext"), place: func(w *c07WF, t *c07Node) {
